@@ -11,6 +11,13 @@ GNext == Next /\ hist' = Append(hist, evs')
 Complete == pc = "Idle" /\ calls = MaxCalls
 (* CONSTRAINT: print complete behaviours and do not extend them *)
 GEmit == IF Complete THEN PrintT(<<"SCN", ToJson(hist)>>) /\ FALSE ELSE TRUE
+(* V3 one-exchange behaviours: the first call is a clean authentication (so that send is callable), then everything is free *)
+Canon == <<"call", "connok", "deliver", "timer">>
+CleanAuthFirst ==
+  \A k \in 1..Len(hist) : k <= 4 =>
+      /\ hist[k][1].e = Canon[k]
+      /\ (k = 1 => hist[k][1].op = "auth" /\ hist[k][1].cr = "good")
+      /\ \A j \in 1..Len(hist[k]) : hist[k][j].e = "tx" => hist[k][j].reply = "valid"
 (* C08 alphabet: no explicit authentication calls with bad credentials, no clock jumps *)
 GNextC08 == /\ \/ CallSend \/ CallAuth("good")
                \/ ConnOK \/ ConnFail("refuse") \/ ConnFail("hang")
